@@ -294,11 +294,13 @@ theorem resid_std_def (P B : List (List Q)) (x : List Q) (hx : x ≠ []) (hB : B
 /-! ### the whole record -/
 
 /-- Inputs in the property's domain.  `2 ≤ npre` is where a slope exists (the allowed minimum is 3);
-`npre < len` is "at least one post-trigger sample"; records have the processor's length. -/
+`npre < len` is "at least one post-trigger sample"; when projectors are loaded the record has the
+processor's length (otherwise the Go code panics deliberately); without projectors any length, shorter or
+longer than configured (edge-multi variable-length records), is covered. -/
 structure Valid (inp : Input) : Prop where
   npre2 : 2 ≤ inp.npre
   post : inp.npre < inp.data.length
-  len : inp.data.length = inp.nsamp
+  len : inp.pb ≠ none → inp.data.length = inp.nsamp
   wf : ∀ P B, inp.pb = some (P, B) → P.wf ∧ B.wf
 
 /-- **Umbrella.**  For every record, every `2 ≤ npre < len`, signed or unsigned, and every projector /
@@ -349,6 +351,7 @@ theorem C13_formulas_equal_definitions (inp : Input) (hv : Valid inp) :
     obtain ⟨P, B⟩ := pb
     simp only
     obtain ⟨hPwf, hBwf⟩ := hwf P B hpb
+    have hlen := hlen (by rw [hpb]; simp)
     by_cases hok : setPBok inp.nsamp P B = true
     · have hs := (setPB_shapes inp.nsamp P B hPwf hBwf).mp hok
       have hPc : P.c = x.length := by rw [hs.2.2.2.1, hxl, hlen]
@@ -362,6 +365,18 @@ theorem C13_formulas_equal_definitions (inp : Input) (hv : Valid inp) :
     · have hok' : setPBok inp.nsamp P B = false := by simpa using hok
       simp only [hok', Bool.not_false, if_true, Bool.false_eq_true, if_false]
       exact ⟨_, rfl, hbase, hptd, havg, hms, hispk, rfl, rfl, rfl⟩
+
+/-- Every analysis value, and the oracle's verdict, depends only on the RECORD (its own `presamples`, its
+samples) and on the loaded matrices — never on the processor's configured pre-trigger length.  (Edge-multi
+variable-length records are shorter than configured.) -/
+theorem analyze_record_only (inp : Input) (k : Nat) :
+    analyze { inp with cfgNpre := k } = analyze inp ∧
+    ∀ o, chkC13 { inp with cfgNpre := k } o = chkC13 inp o := ⟨rfl, fun _ => rfl⟩
+
+/-- … and without projectors not on the configured record length either. -/
+theorem analyze_record_only_len (inp : Input) (h : inp.pb = none) (k n : Nat) :
+    analyze { inp with cfgNpre := k, nsamp := n } = analyze inp := by
+  unfold analyze; simp only [h]
 
 /-! ### the oracle and the theorem are about the same thing
 
@@ -470,6 +485,7 @@ theorem C13_oracle_accepts_exact (inp : Input) (hv : Valid inp) (m : Out) (hm : 
       · rw [if_pos hok] at hmat
         obtain ⟨_, hc, hr⟩ := hmat
         obtain ⟨hPwf, hBwf⟩ := hwf P B hpb
+        have hlen := hlen (by rw [hpb]; simp)
         have hsh := (setPB_shapes inp.nsamp P B hPwf hBwf).mp hok
         have hPc : P.c = inp.data.length := by rw [hsh.2.2.2.1, hlen]
         rw [if_neg (by simp [hok, hPc])]
@@ -488,10 +504,10 @@ theorem C13_oracle_accepts_exact (inp : Input) (hv : Valid inp) (m : Out) (hm : 
         rw [if_pos (by simp [hok'])]
 
 /-- non-vacuity of `Exact`: the unsigned record `0 0 | 3 3` has mean 0, delta 0, average 3, RMS 3, peak 3 -/
-example : ∃ m o, analyze { npre := 2, nsamp := 4, signed := false, data := [0, 0, 3, 3], pb := none } = .ok m ∧
+example : ∃ m o, analyze { npre := 2, cfgNpre := 2, nsamp := 4, signed := false, data := [0, 0, 3, 3], pb := none } = .ok m ∧
     Exact m o := by
-  have hv : Valid { npre := 2, nsamp := 4, signed := false, data := [0, 0, 3, 3], pb := none } :=
-    ⟨by decide, by decide, by decide, by intro P B h; cases h⟩
+  have hv : Valid { npre := 2, cfgNpre := 2, nsamp := 4, signed := false, data := [0, 0, 3, 3], pb := none } :=
+    ⟨by decide, by decide, fun _ => rfl, by intro P B h; cases h⟩
   obtain ⟨out, hout, hptm, hptd, havg, hms, hpk, hmat⟩ := C13_formulas_equal_definitions _ hv
   have hx : dataVec false [0, 0, 3, 3] = [0, 0, 3, 3] := by
     simp [dataVec, sampleVal]
@@ -509,10 +525,10 @@ example : ∃ m o, analyze { npre := 2, nsamp := 4, signed := false, data := [0,
   · intro v hv'; rw [hmat.2.2] at hv'; cases hv'
 
 /-- non-vacuity: an ordinary signed record with a 2-row projector satisfies `Valid` -/
-example : Valid { npre := 3, nsamp := 5, signed := true, data := [65535, 65535, 65535, 2, 5],
+example : Valid { npre := 3, cfgNpre := 7, nsamp := 5, signed := true, data := [65535, 65535, 65535, 2, 5],
                   pb := some (⟨2, 5, [[1, 0, 0, 0, 0], [0, 0, 0, 1, 1]]⟩,
                               ⟨5, 2, [[1, 0], [1, 0], [1, 0], [0, 1], [0, 1]]⟩) } := by
-  refine ⟨by decide, by decide, by decide, ?_⟩
+  refine ⟨by decide, by decide, fun _ => rfl, ?_⟩
   intro P B h
   simp only [Option.some.injEq, Prod.mk.injEq] at h
   obtain ⟨rfl, rfl⟩ := h
